@@ -513,6 +513,22 @@ def rule_capacity(m, rep, rid='R3', frame=False):
 def _field_value(t, name):
     """Value of field `name` of an aggregate term built through updates / derived Default."""
     t = norm(t)
+    path = tuple(name) if isinstance(name, (tuple, list)) else (name,)
+    name = path[0]
+    if len(path) > 1:
+        while True:
+            if t[0] == 'update':
+                if tuple(t[2]) == path:
+                    return t[3]
+                t = t[1]
+                continue
+            if t[0] == 'mutated':
+                t = t[1]
+                continue
+            if t[0] == 'adt':
+                v = dict(t[3]).get(name)
+                return _field_value(v, path[1:]) if v is not None else None
+            return None
     while True:
         if t[0] == 'update':
             if t[2] == (name,):
@@ -549,8 +565,10 @@ def rule_builder_frame(cad, rep, adt, setters, rid='builder', value_only=False, 
             x = r
             while True:
                 if x[0] == 'update':
-                    changed.add(x[2][0])
-                    vals[x[2][0]] = x[3]
+                    # an update of a field inside a nested private config struct counts for its leaf field
+                    leaf = x[2][-1] if all(isinstance(e_, str) for e_ in x[2]) else x[2][0]
+                    changed.add(leaf)
+                    vals[leaf] = x[3]
                     x = x[1]
                 elif x[0] == 'mutated':
                     okshape = False
